@@ -372,7 +372,16 @@ pub fn run_world(t: &mut Tape, mix: &Mix, judge: Judge) -> RunOut {
     for i in 0..nmsgs {
         let ai = t.below(accounts.len());
         let ni = t.below(nodes.len());
-        let t_req = epoch + (i as i128) * 7 * refm::NS + t.draw(1_000_000_000) as i128 * (t.draw(2) as i128);
+        let mut t_req = epoch + (i as i128) * 7 * refm::NS + t.draw(1_000_000_000) as i128 * (t.draw(2) as i128);
+        if i > 0 && t.chance(10) {
+            // a client whose clock is a year (or four) off: same month, day and time of day (each
+            // delivery gets its own server clock relative to the request instant)
+            let (y, mo, d, h, mi, s, ns) = refm::civil_of_instant(t_req);
+            let y2 = y + [1, -1, 4, -4][t.below(4)];
+            if (1..=9999).contains(&y2) && !(mo == 2 && d == 29) {
+                t_req = refm::instant_of_civil(y2, mo, d, h, mi, s, ns);
+            }
+        }
         let l = gen::gen_logical(t, &nodes[ni], &mix.req);
         let s = gen::sign_message(t, l, &nodes[ni], &accounts[ai], ai, ni, t_req, &mix.sign);
         out.note(format!(
@@ -461,7 +470,24 @@ pub fn run_world(t: &mut Tape, mix: &Mix, judge: Judge) -> RunOut {
                 }
             }
             // ---- clocks: request instant − server now
-            let drawn_off = gen::gen_offset(t, mix.outside_window);
+            let mut drawn_off = gen::gen_offset(t, mix.outside_window);
+            if mix.outside_window && t.chance(8) {
+                // the server clock reads what the request's date *digits* say (its wall-clock time
+                // taken for UTC): with a UTC offset in the date the request is then hours off
+                let text = m0.auth.date_text.as_bytes();
+                if let Some(tp) = text.iter().position(|c| *c == b'T' || *c == b't') {
+                    if let Some(zp) = text[tp..].iter().rposition(|c| *c == b'+' || *c == b'-') {
+                        let mut local = text[..tp + zp].to_vec();
+                        local.push(b'Z');
+                        if let ((_, Some(l)), (_, Some(u))) = (refm::iso_parse(&local), refm::iso_parse(text)) {
+                            if l != u {
+                                drawn_off = u - l + t.range(-600, 600) as i128 * refm::NS;
+                                out.probe("clock_at_wall_clock_digits");
+                            }
+                        }
+                    }
+                }
+            }
             let off = if mix.zero_offset {
                 0
             } else {
